@@ -31,6 +31,21 @@ ARMS = [
 ]
 LITS = [{'rule': 'R1', 'regex': r'\A\s*\{', 'replace': '{ proof { lemma_lits(); }'}]
 
+# ---- a helper `fn serialize_real(n: f32, out)` (optional item: not in the pinned text; a restructuring may extract the two
+# `Primitive::Number` arms into it).  Whatever its body, it must write `spell_real(n)`.  Every `{}` argument in it is the f32
+# (checked by Verus' type checker: the helpers take `&f32`); a float-to-integer cast has no Verus semantics and is hoisted
+# into a helper WITHOUT contract (nothing is known about the result); any other format goes to the uninterpreted fallback.
+REAL = [
+    {'rule': 'R7', 'regex': r'(\w+)\.fract\(\)\s*==\s*0\.0', 'replace': r'hoist_f32_fract_is_zero(&\1)', 'count': '*'},
+    {'rule': 'R7', 'regex': r'\b(\w+)\s+as\s+(i32|i64|u32|u64)\b', 'replace': r'hoist_f32_as_\2(\1)', 'count': '*'},
+    {'rule': 'R7', 'regex': W + r'"\{\}\.0"\s*,\s*(\w+)\s*\)\?', 'replace': r'hoist_write_f32_display_dot0(out, &\1)?', 'count': '*'},
+    {'rule': 'R7', 'regex': W + r'"\{\}"\s*,\s*(\w+)\s*\)\?', 'replace': r'hoist_write_f32_display(out, &\1)?', 'count': '*'},
+    {'rule': 'R7', 'regex': W + r'"\{:\?\}"\s*,\s*(\w+)\s*\)\?', 'replace': r'hoist_write_f32_debug(out, &\1)?', 'count': '*'},
+    # fallback: any OTHER one-argument format / argument expression appends `fmt_spec(<format string>, <argument>)`,
+    # an uninterpreted function: it can never prove a spelling (reported at real_spelling), never stops the verifier
+    {'rule': 'R7', 'regex': W + r'(r?"[^"]*")\s*,\s*([^;]*?)\)\?', 'replace': r'hoist_write_fmt(out, \1, \2)?', 'count': '*'},
+]
+
 SINK = 'final(out).infallible() == old(out).infallible()'
 
 # serialize_list: text put in place of the loop header (R6) -- ghost entry value of the element counter, then `loop {`
@@ -68,6 +83,22 @@ UNIT = {
    'TOL_NONFINITE_REAL': 'C04 quantifies over finite reals; what is written for inf / NaN (`inf`, `NaN`: no PDF spelling exists) is left open',
  },
  'allowed_assumes': [],
+ # BOUNDED native stand-in (a test on the real public API, never counted as proved): decides restructurings of the serialisers that
+ # the Verus units of C04 (serial_leaf, primser) cannot read; a failure is a violation with the concrete failing input.
+ 'native': {'tests': [
+    {'name': 'roundtrip_small_values', 'code': 'native_roundtrip.rs', 'place': 'pdf/tests/verif_primser_roundtrip.rs',
+     'fn': 'Primitive::serialize', 'props': ['C04'], 'tier': 'quick', 'timeout': 900,
+     'bound': 'strings: all 65 793 byte strings of length <= 2 (+ all 65 536 two-byte strings inside a..z, every byte at start/middle/end of a '
+              'literal-form and of a hexadecimal-form string, 16 picked); names: all 18 433 names of <= 2 UTF-8 bytes (non-UTF-8 byte strings '
+              'cannot be held by Name/SmallString: skipped), every ASCII byte and 6 non-ASCII scalar values inside A?B, as value, array element '
+              'and dictionary key; 26 boundary integers; 62 finite boundary reals (+-0 .. 2^24, 2^31, 2^63, 1e19, 1e38, f32::MAX, MIN_POSITIVE, '
+              'smallest subnormal); 35 references (id, gen up to u64::MAX); 216 triples of adjacent numbers; [x], [x y], <</K1 x/K2 y>>, '
+              '[<</A x>> y], <</A<</B x>>/C y>>, [[x] y] for every ordered pair of 27 kinds; each value plain, framed `7 0 obj .. endobj`, as array '
+              'element and as dictionary value; 4479 of them also through Storage::create + Storage::save + FileOptions::load + resolve. '
+              'Streams and content streams not covered.',
+     'contract': 'parse(serialize(v)) == v (pdf::parser::parse_with_lexer / parse_indirect_object / Storage::save + load), nothing but white-space '
+                 'left behind the value, dictionary entry order kept, serialize neither fails nor panics'},
+ ]},
  'items': {
   'struct PdfString': {'kind': 'decl', 'file': F, 'header': r'^pub struct PdfString$'},
   'struct PlainRef': {'kind': 'decl', 'file': OBJ, 'header': r'^pub struct PlainRef$', 'attrs': ['#[derive(Clone, Copy)]']},
@@ -77,6 +108,14 @@ UNIT = {
   'struct PdfStream': {'kind': 'decl', 'file': F, 'header': r'^pub struct PdfStream$',
         'rewrites': [{'rule': 'R2', 'find': 'pub (crate) inner:', 'replace': 'pub inner:'}]},
   'enum Primitive': {'kind': 'decl', 'file': F, 'header': r'^pub enum Primitive$'},
+
+  'serialize_real': {'kind': 'fn', 'file': F, 'container': None, 'name': 'serialize_real', 'props': ['C04'], 'optional': True,
+     'ensures': [
+        ('real_spelling', 'r is Ok ==> final(out)@ == old(out)@ + spell_real(n)'),
+        ('real_ok_on_infallible_sink', 'old(out).infallible() ==> r is Ok'),
+        ('real_sink_kind_kept', SINK),
+     ],
+     'rewrites': SIG + REAL + HOISTS + LITS},
 
   'Primitive::serialize': {'kind': 'fn', 'file': F, 'container': r'^impl Primitive$', 'name': 'serialize', 'props': ['C04'],
      'decreases': '*self, 0nat',
